@@ -76,7 +76,7 @@ class Relations(list):
         return self.tostring(exclude_orthogonal=True)
 
     def tostring(self, exclude_orthogonal: bool = False) -> str:
-        tmpl = '%%-%ds %%-12s %%s' % max(len(str(r.left)) for r in self)
+        tmpl = '%%-%ds %%-12s %%s' % max((len(str(r.left)) for r in self), default=0)
         if exclude_orthogonal:
             self = (r for r in self if r.__class__ is not Orthogonal)
         return '\n'.join(tmpl % (r.left, r.kind, r.right) for r in self)
